@@ -14,6 +14,8 @@ import (
 	"io"
 	"math"
 	"math/rand"
+	"runtime"
+	"runtime/debug"
 	"strings"
 
 	"github.com/lindb/roaring"
@@ -33,7 +35,7 @@ func init() { core.Register(area{}) }
 
 func (area) Name() string { return "codec" }
 
-const kinds = 10
+const kinds = 11
 
 func (area) Run(c *core.Ctx) error {
 	for i := 0; i < c.N; i++ {
@@ -66,6 +68,8 @@ func (area) Run(c *core.Ctx) error {
 			malformedCase(c, r)
 		case 9:
 			streamCase(c, r)
+		case 10:
+			poolAliasCase(c, r)
 		}
 	}
 	return nil
@@ -1996,5 +2000,383 @@ func streamCase(c *core.Ctx, r *rand.Rand) {
 			checkAgainst(c, "tsd-stream field", flds[f].b, got)
 		}
 		guard(c, "tsr close 0", func() string { sr.Close(); return "ok" })
+	}
+}
+
+// ---------------------------------------------------------------- pool aliasing
+
+// poolAliasCase: after arbitrary use+release histories, SEVERAL objects are taken from each of
+// lindb's pools without a release in between. No two of them may be the same object
+// (`pool-double-put`), and their interleaved use on different data must give exact round trips.
+// The region runs on one P with the collector off, so that what sync.Pool hands back is a function
+// of the Put/Get sequence of this case alone (per-P private slot, then the P's shared list).
+func poolAliasCase(c *core.Ctx, r *rand.Rand) {
+	c.NonTrivial()
+	runtime.LockOSThread()
+	prevProcs := runtime.GOMAXPROCS(1)
+	prevGC := debug.SetGCPercent(-1)
+	defer func() {
+		debug.SetGCPercent(prevGC)
+		runtime.GOMAXPROCS(prevProcs)
+		runtime.UnlockOSThread()
+	}()
+	mkBlock := func(start, n int) *tsdBlock {
+		b := &tsdBlock{start: start, mask: genMask(r, n), vals: make([]uint64, n), noTime: true}
+		b.mask[0] = true
+		prev := r.Uint64()
+		for i := range b.vals {
+			b.vals[i] = genU64(r, prev) | 1 // never the zero pattern: a decoder that "finds nothing" is visible
+			prev = b.vals[i]
+		}
+		return b
+	}
+	gv := func(h int, dec *encoding.TSDDecoder, s int, got map[int]uint64) {
+		guard(c, fmt.Sprintf("td gv %d %d", h, s), func() string {
+			f, ok := dec.GetValue(uint16(s))
+			if !ok {
+				return "false"
+			}
+			got[s] = math.Float64bits(f)
+			return fmt.Sprintf("true %d", math.Float64bits(f))
+		})
+	}
+
+	// ---- TSD stream readers (decoder pool behind NewTSDStreamReader / Close)
+	n := 2 + r.Intn(10)
+	start := r.Intn(3000)
+	mkStream := func(h int) ([]byte, []*tsdBlock, []int) {
+		nf := 1 + r.Intn(3)
+		sw := encoding.NewTSDStreamWriter(uint16(start), uint16(start+n-1))
+		c.Op(fmt.Sprintf("tsw new %d %d %d", h, start, start+n-1), "ok")
+		var blocks []*tsdBlock
+		var ids []int
+		for f := 0; f < nf; f++ {
+			b := mkBlock(start, n)
+			enc := encoding.NewTSDEncoder(uint16(start))
+			for i, on := range b.mask {
+				if on {
+					enc.AppendTime(bit.One)
+					enc.AppendValue(b.vals[i])
+				} else {
+					enc.AppendTime(bit.Zero)
+				}
+			}
+			d, _ := enc.BytesWithoutTime()
+			b.data = cp(d)
+			id := r.Intn(65536)
+			guard(c, fmt.Sprintf("tsw field %d %d %s", h, id, hx(b.data)), func() string { sw.WriteField(uint16(id), b.data); return "ok" })
+			blocks = append(blocks, b)
+			ids = append(ids, id)
+		}
+		var data []byte
+		guard(c, fmt.Sprintf("tsw bytes %d", h), func() string { d, _ := sw.Bytes(); data = cp(d); return hx(data) })
+		return data, blocks, ids
+	}
+	// history: 1-3 readers opened, (partly) drained and closed one after the other
+	for k := 0; k < 1+r.Intn(3); k++ {
+		c.Branch("pool-history-stream-reader-drained-and-closed")
+		data, _, _ := mkStream(0)
+		var sr encoding.TSDStreamReader
+		guard(c, "tsr new 0 "+hx(data)+" 5", func() string {
+			sr = encoding.NewTSDStreamReader(data)
+			s0, e0 := sr.TimeRange()
+			return fmt.Sprintf("%d %d", s0, e0)
+		})
+		drain := r.Intn(4) > 0
+		for {
+			more := false
+			guard(c, "tsr hasnext 0", func() string { more = sr.HasNext(); return fmt.Sprintf("%v", more) })
+			if !more {
+				break
+			}
+			guard(c, "tsr next 0", func() string { id, _ := sr.Next(); return fmt.Sprintf("%d", id) })
+			if !drain {
+				break
+			}
+		}
+		guard(c, "tsr close 0", func() string { sr.Close(); return "ok" })
+	}
+	// now several readers are open at the same time
+	nOpen := 2 + r.Intn(2)
+	type openReader struct {
+		sr     encoding.TSDStreamReader
+		blocks []*tsdBlock
+		ids    []int
+		dec    *encoding.TSDDecoder
+	}
+	var open []*openReader
+	for h := 0; h < nOpen; h++ {
+		data, blocks, ids := mkStream(h)
+		o := &openReader{blocks: blocks, ids: ids}
+		guard(c, fmt.Sprintf("tsr new %d %s %d", h, hx(data), 5+h), func() string {
+			o.sr = encoding.NewTSDStreamReader(data)
+			s0, e0 := o.sr.TimeRange()
+			return fmt.Sprintf("%d %d", s0, e0)
+		})
+		open = append(open, o)
+	}
+	// first field of every reader, THEN the reads (use overlaps)
+	for h, o := range open {
+		guard(c, fmt.Sprintf("tsr hasnext %d", h), func() string { return fmt.Sprintf("%v", o.sr.HasNext()) })
+		guard(c, fmt.Sprintf("tsr next %d", h), func() string {
+			id, d := o.sr.Next()
+			o.dec = d
+			if int(id) != o.ids[0] {
+				c.Fail("tsd-stream-roundtrip", fmt.Sprintf("reader %d: field id %d read back as %d", h, o.ids[0], id))
+			}
+			return fmt.Sprintf("%d", id)
+		})
+	}
+	for a := 0; a < len(open); a++ {
+		for b := a + 1; b < len(open); b++ {
+			if open[a].dec != nil && open[a].dec == open[b].dec {
+				c.Fail("pool-double-put", fmt.Sprintf("TSD decoder pool: stream readers %d and %d, both open, were handed the SAME *TSDDecoder (an earlier drained+closed reader put it into the pool twice)", a, b))
+			}
+		}
+	}
+	for h, o := range open {
+		got := map[int]uint64{}
+		for s := start; s <= start+n-1; s++ {
+			gv(5+h, o.dec, s, got)
+		}
+		checkAgainst(c, fmt.Sprintf("overlapping stream reader %d", h), o.blocks[0], got)
+	}
+	for h, o := range open {
+		guard(c, fmt.Sprintf("tsr close %d", h), func() string { o.sr.Close(); return "ok" })
+	}
+
+	// ---- TSD decoders taken directly
+	for k := 0; k < 1+r.Intn(3); k++ {
+		c.Branch("pool-history-decoder-used-and-released")
+		var d *encoding.TSDDecoder
+		guard(c, "td get 0", func() string { d = encoding.GetTSDDecoder(); return "ok" })
+		if r.Intn(2) == 0 {
+			poisonDecoderH(c, r, d, 0)
+		} else {
+			b := mkBlock(r.Intn(100), 1+r.Intn(5))
+			eb := encoding.NewTSDEncoder(uint16(b.start))
+			for i, on := range b.mask {
+				if on {
+					eb.AppendTime(bit.One)
+					eb.AppendValue(b.vals[i])
+				} else {
+					eb.AppendTime(bit.Zero)
+				}
+			}
+			bd, _ := eb.BytesWithoutTime()
+			bd = cp(bd)
+			guard(c, fmt.Sprintf("td rtr 0 %s %d %d", hx(bd), b.start, b.end()), func() string {
+				d.ResetWithTimeRange(bd, uint16(b.start), uint16(b.end()))
+				return "ok"
+			})
+			gv(0, d, b.start, map[int]uint64{})
+		}
+		encoding.ReleaseTSDDecoder(d)
+		c.Op("td rel 0", "ok")
+	}
+	nDec := 2 + r.Intn(2)
+	decs := make([]*encoding.TSDDecoder, nDec)
+	dblocks := make([]*tsdBlock, nDec)
+	for h := 0; h < nDec; h++ {
+		guard(c, fmt.Sprintf("td get %d", h), func() string { decs[h] = encoding.GetTSDDecoder(); return "ok" })
+	}
+	for a := 0; a < nDec; a++ {
+		for b := a + 1; b < nDec; b++ {
+			if decs[a] == decs[b] {
+				c.Fail("pool-double-put", fmt.Sprintf("TSD decoder pool: GetTSDDecoder returned the same object for holders %d and %d without a release in between", a, b))
+			}
+		}
+	}
+	for h := 0; h < nDec; h++ {
+		b := mkBlock(r.Intn(3000), 2+r.Intn(8))
+		eb := encoding.NewTSDEncoder(uint16(b.start))
+		for i, on := range b.mask {
+			if on {
+				eb.AppendTime(bit.One)
+				eb.AppendValue(b.vals[i])
+			} else {
+				eb.AppendTime(bit.Zero)
+			}
+		}
+		bd, _ := eb.BytesWithoutTime()
+		b.data = cp(bd)
+		dblocks[h] = b
+		guard(c, fmt.Sprintf("td rtr %d %s %d %d", h, hx(b.data), b.start, b.end()), func() string {
+			decs[h].ResetWithTimeRange(b.data, uint16(b.start), uint16(b.end()))
+			return "ok"
+		})
+	}
+	gots := make([]map[int]uint64, nDec)
+	for h := range gots {
+		gots[h] = map[int]uint64{}
+	}
+	for step := 0; step < 12; step++ { // round-robin over the holders, slot by slot
+		for h := 0; h < nDec; h++ {
+			s := dblocks[h].start + step
+			if s <= dblocks[h].end() {
+				gv(h, decs[h], s, gots[h])
+			}
+		}
+	}
+	for h := 0; h < nDec; h++ {
+		checkAgainst(c, fmt.Sprintf("interleaved decoder %d", h), dblocks[h], gots[h])
+		encoding.ReleaseTSDDecoder(decs[h])
+		c.Op(fmt.Sprintf("td rel %d", h), "ok")
+	}
+
+	// ---- TSD encoders
+	for k := 0; k < 1+r.Intn(3); k++ {
+		c.Branch("pool-history-encoder-used-and-released")
+		var e *encoding.TSDEncoder
+		st := r.Intn(100)
+		guard(c, fmt.Sprintf("te get 0 %d", st), func() string { e = encoding.GetTSDEncoder(uint16(st)); return "ok" })
+		for j := 0; j < r.Intn(4); j++ {
+			guard(c, "te time 0 1", func() string { e.AppendTime(bit.One); return "ok" })
+			v := r.Uint64()
+			guard(c, fmt.Sprintf("te val 0 %d", v), func() string { e.AppendValue(v); return "ok" })
+		}
+		encoding.ReleaseTSDEncoder(e)
+		c.Op("te rel 0", "ok")
+	}
+	nEnc := 2 + r.Intn(2)
+	encs := make([]*encoding.TSDEncoder, nEnc)
+	eblocks := make([]*tsdBlock, nEnc)
+	for h := 0; h < nEnc; h++ {
+		eblocks[h] = mkBlock(r.Intn(3000), 2+r.Intn(8))
+		eblocks[h].noTime = false
+		guard(c, fmt.Sprintf("te get %d %d", h, eblocks[h].start), func() string { encs[h] = encoding.GetTSDEncoder(uint16(eblocks[h].start)); return "ok" })
+	}
+	for a := 0; a < nEnc; a++ {
+		for b := a + 1; b < nEnc; b++ {
+			if encs[a] == encs[b] {
+				c.Fail("pool-double-put", fmt.Sprintf("TSD encoder pool: GetTSDEncoder returned the same object for holders %d and %d without a release in between", a, b))
+			}
+		}
+	}
+	for step := 0; step < 10; step++ {
+		for h := 0; h < nEnc; h++ {
+			b := eblocks[h]
+			if step >= len(b.mask) {
+				continue
+			}
+			if b.mask[step] {
+				guard(c, fmt.Sprintf("te time %d 1", h), func() string { encs[h].AppendTime(bit.One); return "ok" })
+				v := b.vals[step]
+				guard(c, fmt.Sprintf("te val %d %d", h, v), func() string { encs[h].AppendValue(v); return "ok" })
+			} else {
+				guard(c, fmt.Sprintf("te time %d 0", h), func() string { encs[h].AppendTime(bit.Zero); return "ok" })
+			}
+		}
+	}
+	for h := 0; h < nEnc; h++ {
+		b := eblocks[h]
+		guard(c, fmt.Sprintf("te bytes %d", h), func() string {
+			d, err := encs[h].Bytes()
+			if err != nil || d == nil {
+				return "nil"
+			}
+			b.data = cp(d)
+			return hx(d)
+		})
+		if b.data == nil {
+			c.Fail("tsd-bytes-missing", "interleaved encoder returned no bytes")
+			continue
+		}
+		dec := encoding.NewTSDDecoder(b.data)
+		c.Op(fmt.Sprintf("td new 9 %s", hx(b.data)), "ok")
+		got := map[int]uint64{}
+		if int(dec.StartTime()) != b.start || int(dec.EndTime()) != b.end() {
+			c.Fail("tsd-time-range", fmt.Sprintf("interleaved encoder %d: block [%d,%d] decodes as [%d,%d]", h, b.start, b.end(), dec.StartTime(), dec.EndTime()))
+		}
+		for s := b.start; s <= b.end(); s++ {
+			gv(9, dec, s, got)
+		}
+		checkAgainst(c, fmt.Sprintf("interleaved encoder %d", h), b, got)
+	}
+	for h := 0; h < nEnc; h++ {
+		encoding.ReleaseTSDEncoder(encs[h])
+		c.Op(fmt.Sprintf("te rel %d", h), "ok")
+	}
+
+	// ---- fixed-offset decoders
+	mkTable := func() ([]int, []byte) {
+		fe := encoding.NewFixedOffsetEncoder(true)
+		var vals []int
+		cur := 0
+		for k := 0; k < 1+r.Intn(6); k++ {
+			cur += r.Intn(1 << uint(1+r.Intn(20)))
+			vals = append(vals, cur)
+			fe.Add(cur)
+		}
+		return vals, cp(fe.MarshalBinary())
+	}
+	for k := 0; k < 1+r.Intn(3); k++ {
+		c.Branch("pool-history-fixed-offset-decoder-used-and-released")
+		var d *encoding.FixedOffsetDecoder
+		guard(c, "fd get 0", func() string { d = encoding.GetFixedOffsetDecoder(); return "ok" })
+		_, tb := mkTable()
+		guard(c, "fd unm 0 "+hx(tb), func() string {
+			l, err := d.Unmarshal(tb)
+			if err != nil {
+				return foErr(err)
+			}
+			return "ok " + hx(l)
+		})
+		encoding.ReleaseFixedOffsetDecoder(d)
+		c.Op("fd rel 0", "ok")
+	}
+	nFd := 2 + r.Intn(2)
+	fds := make([]*encoding.FixedOffsetDecoder, nFd)
+	tvals := make([][]int, nFd)
+	for h := 0; h < nFd; h++ {
+		guard(c, fmt.Sprintf("fd get %d", h), func() string { fds[h] = encoding.GetFixedOffsetDecoder(); return "ok" })
+	}
+	for a := 0; a < nFd; a++ {
+		for b := a + 1; b < nFd; b++ {
+			if fds[a] == fds[b] {
+				c.Fail("pool-double-put", fmt.Sprintf("fixed-offset decoder pool: GetFixedOffsetDecoder returned the same object for holders %d and %d without a release in between", a, b))
+			}
+		}
+	}
+	for h := 0; h < nFd; h++ {
+		vals, tb := mkTable()
+		tvals[h] = vals
+		guard(c, fmt.Sprintf("fd unm %d %s", h, hx(tb)), func() string {
+			l, err := fds[h].Unmarshal(tb)
+			if err != nil {
+				return foErr(err)
+			}
+			return "ok " + hx(l)
+		})
+	}
+	for h := 0; h < nFd; h++ { // reads after ALL unmarshals
+		for i, want := range tvals[h] {
+			guard(c, fmt.Sprintf("fd at %d %d", h, i), func() string {
+				v, ok := fds[h].Get(i)
+				if !ok || v != want {
+					c.Fail("fo-roundtrip", fmt.Sprintf("interleaved fixed-offset decoder %d: Get(%d)=(%d,%v), want %d", h, i, v, ok, want))
+				}
+				return fmt.Sprintf("%d %v", v, ok)
+			})
+		}
+	}
+	for h := 0; h < nFd; h++ {
+		encoding.ReleaseFixedOffsetDecoder(fds[h])
+		c.Op(fmt.Sprintf("fd rel %d", h), "ok")
+	}
+}
+
+// poisonDecoderH: poisonDecoder for an arbitrary handle.
+func poisonDecoderH(c *core.Ctx, r *rand.Rand, dec *encoding.TSDDecoder, h int) {
+	data := poisonBytes(r)
+	guard(c, fmt.Sprintf("td reset %d %s", h, hx(data)), func() string { dec.Reset(data); return "ok" })
+	for s := 0; s <= 1; s++ {
+		guard(c, fmt.Sprintf("td gv %d %d", h, s), func() string {
+			f, ok := dec.GetValue(uint16(s))
+			if !ok {
+				return "false"
+			}
+			return fmt.Sprintf("true %d", math.Float64bits(f))
+		})
 	}
 }
